@@ -39,6 +39,16 @@ func ruleDecoders(c *Ctx) {
 				return nil
 			}
 			if isNilConst(t.Resolve(fr, r.Results[ei]).V) {
+				// the dual: success hands out the decoded object (callers dereference it without a test)
+				if _, isPtr := res.At(0).Type().Underlying().(*types.Pointer); isPtr && ei != 0 && !strings.HasSuffix(res.At(0).Type().String(), "codec.Meta") {
+					v := t.Resolve(fr, r.Results[0])
+					if isNilConst(v.V) {
+						return []Ev{{Kind: "return:ok+nil"}}
+					}
+					if f, _ := fieldLoad(v.V); f != nil {
+						return []Ev{{Kind: "return:ok", Note: "field:" + t.valKey(v.Fr, v.V, t.cur)}}
+					}
+				}
 				return []Ev{{Kind: "return:ok"}}
 			}
 			for i, rv := range r.Results {
@@ -64,10 +74,32 @@ func ruleDecoders(c *Ctx) {
 			}
 			return []Ev{{Kind: "return:err"}}
 		}
+		sp.Branch = func(t *Tracer, fr *Frame, i *ssa.If, dir bool) []Ev {
+			if x, nn, ok := nilTest(i, dir); ok && nn {
+				if f, _ := fieldLoad(x); f != nil {
+					return []Ev{{Kind: "nonnil", Note: "field:" + t.valKey(fr, x, t.cur)}}
+				}
+			}
+			return nil
+		}
 		tr := runTrace(p, fn, sp)
 		bad := ""
 		for _, path := range tr.Paths {
-			for _, e := range path {
+			for k, e := range path {
+				if e.Kind == "return:ok+nil" {
+					bad = "decoder reports success without a decoded object: callers dereference the result of a successful decode without a test (nil pointer panic on the worker goroutine) @" + p.InstrPos(e.Instr)
+				}
+				if e.Kind == "return:ok" && strings.HasPrefix(e.Note, "field:") {
+					tested := false
+					for _, e2 := range path[:k] {
+						if e2.Kind == "nonnil" && e2.Note == e.Note {
+							tested = true
+						}
+					}
+					if !tested {
+						bad = "decoder reports success with a decoded pointer that was not tested for presence: callers dereference it without a test @" + p.InstrPos(e.Instr)
+					}
+				}
 				if e.Kind == "return:err+data" {
 					bad = "decoder returns data together with an error (" + e.Note + "): callers that log and continue would apply a partially decoded message @" + p.InstrPos(e.Instr)
 				}
@@ -76,7 +108,7 @@ func ruleDecoders(c *Ctx) {
 		if tr.Trunc {
 			bad = "path budget exhausted"
 		}
-		c.check(bad == "", fnName(fn), "an error return carries no decoded data", p.Pos(fn.Pos()), fmt.Sprintf("%d paths", len(tr.Paths)), bad)
+		c.check(bad == "", fnName(fn), "an error return carries no decoded data; a successful return carries the decoded object", p.Pos(fn.Pos()), fmt.Sprintf("%d paths", len(tr.Paths)), bad)
 	}
 }
 
@@ -318,14 +350,14 @@ func ruleOptDeref(c *Ctx) {
 // census of explicit panics and unchecked type assertions (C15.5, C15.6)
 
 var allowedPanics = map[string]string{
-	"(*rescache.Throttle).Done":       "negative running counter: discharged by PAIR/throttle-slot (C19)",
-	"(*server.Service).SetLogger":     "API misuse before start",
-	"server.RegisterAPIEncoderFactory": "init-time double registration",
-	"server.init#1":                   "init-time marshal of a constant",
-	"server.init":                     "init-time marshal of a constant",
-	"command-line-arguments.main":     "shutdown timeout in main",
-	"main.main":                       "shutdown timeout in main",
-	"resgate.main":                    "shutdown timeout in main",
+	"(*rescache.Throttle).Done":         "negative running counter: discharged by PAIR/throttle-slot (C19)",
+	"(*server.Service).SetLogger":       "API misuse before start",
+	"server.RegisterAPIEncoderFactory":  "init-time double registration",
+	"server.init#1":                     "init-time marshal of a constant",
+	"server.init":                       "init-time marshal of a constant",
+	"command-line-arguments.main":       "shutdown timeout in main",
+	"main.main":                         "shutdown timeout in main",
+	"resgate.main":                      "shutdown timeout in main",
 	"github.com/resgateio/resgate.main": "shutdown timeout in main",
 }
 
